@@ -270,7 +270,9 @@ def gen_string(rng):
         if i:
             s += rng.choice([" ", " ", " ", ",", ";", "/", ":", "  ", " ,", "\t"])
         s += num(rng, 0.85)
-    return s + rng.choice(["", "", "", " ", "  ", ",", " x", "x"])
+    if rng.random() < 0.08:
+        return rng.choice([" ", "  ", "\t", " \n ", "1  ", "1   2", "  1", "1 \t", ",", " ,", "1,  2"])
+    return s + rng.choice(["", "", "", " ", "  ", "   ", ",", " x", "x"])
 
 
 def gen_buffer(rng):
@@ -350,7 +352,7 @@ class C19(DiffProperty):
                   "4-ulp rule on every explored case, not proved; (2) constructors fed from a TEXT iterator are modelled and compared only "
                   "(theorems cover sources that serve numbers); the name tails of the profile keywords (next_vis_cont/next_vis0) enter the "
                   "profile grammar as the model's lexical functions; (3) the 'file' profile is not modelled. All theorems are closed under "
-                  "the global context (no axioms). See docs/notes_C19.md.")
+                  "the global context (no axioms). The model follows /repo main including 70bd00b (white-space-only element = MissingData). See docs/notes_C19.md.")
     technique = "Coq proof (state machines refine a cursor over the denoted sequence) + differential correspondence check with exact binary64 model"
     assumptions = ["malloc succeeds", "texts contain no byte >= 0x80 (the C code passes plain char to isspace)",
                    "|b-a| does not overflow binary64 and (b-a)/n is not subnormal where the closed form is compared"]
@@ -513,8 +515,6 @@ class C19(DiffProperty):
                 cases.append(mk_text_case("values", gen_vals(rng).encode() if rng.random() < 0.95 else None, ops))
             elif r < 0.56:
                 t = gen_string(rng).encode() if rng.random() < 0.97 else None
-                if t is not None and not ok_consume_string(t):
-                    ops = strip_consume(ops)
                 cases.append(mk_text_case("string", t, ops))
             elif r < 0.62:
                 ln = rng.choice([0, 1, 2, 2, 3, 4, 5, 7, 40, 41, 1000, 2147483648, 4294967295])
@@ -549,8 +549,8 @@ class C19(DiffProperty):
                 else:
                     t = gen_string(rng) if sk == "string" else gen_vals(rng)
                 t = t.encode()
-                if not ok_consume_string(t) or not t.strip():
-                    t = b"3 0 1"
+                if not t:
+                    t = rng.choice([b" ", b"  ", b"3  ", b"3 0  1"])
                 cases.append(" ".join(["from", "%s;%s;%s" % (ctor, sk, hx(t)), oracle(t)] + ops))
             else:
                 pts = rng.choice([-1, 0, 1, 2, 3, 4, 6])
